@@ -163,9 +163,15 @@ def setSize (c : Consts) (s : SetImg) : Nat := 12 + 4 * setLen c s.h s.count
 
 def SetImg.nonzero (s : SetImg) : List Nat := s.slots.filter (· != 0)
 
-def SetImg.WF (c : Consts) (s : SetImg) : Prop :=
+/-- what the reader needs: field ranges and the table length implied by the header (lg_arr byte, or — images of
+older writers that left byte 4 zero — the size recomputed from the count) -/
+def SetImg.Valid (c : Consts) (s : SetImg) : Prop :=
   s.h.inRange ∧ s.h.curMode = 1 ∧ s.h.tgt ≠ 3 ∧ 7 < s.h.lgK ∧ s.count < 2 ^ 32 ∧
-  s.slots.length = setLen c s.h s.count ∧ (∀ x ∈ s.slots, x < 2 ^ 32) ∧
+  s.slots.length = setLen c s.h s.count ∧ (∀ x ∈ s.slots, x < 2 ^ 32)
+instance (c : Consts) (s : SetImg) : Decidable (s.Valid c) := by unfold SetImg.Valid; infer_instance
+
+def SetImg.WF (c : Consts) (s : SetImg) : Prop :=
+  s.Valid c ∧
   -- writer consistency: byte 6 unused, lg_arr is the real table size and at most lg_k - 3, count = stored coupons
   s.h.b6 = 0 ∧ c.lgInitSetSize ≤ s.h.lgArr ∧ s.h.lgArr + 3 ≤ s.h.lgK ∧ s.count = s.nonzero.length ∧
   (s.h.emptyFlag c = (s.count == 0))
